@@ -1,5 +1,6 @@
 mod acts;
 mod common;
+mod config_grid;
 mod grids;
 mod ledger;
 mod menu;
@@ -7,6 +8,7 @@ mod own;
 mod probe_checks;
 mod probes;
 mod scen;
+mod treasury_grid;
 
 use std::process::exit;
 
@@ -40,6 +42,17 @@ fn main() {
         i += 1;
     }
     let thorough = tier == "thorough";
+    let mut replay_case_key: Option<String> = None;
+    if let Some(p) = &replay {
+        let body: serde_json::Value = serde_json::from_str(&std::fs::read_to_string(p).expect("replay file")).expect("replay json");
+        if body["kind"].as_str() == Some("case") {
+            // a grid case is replayed by re-running the (cheap, exhaustive) grid it belongs to
+            replay_case_key = body["key"].as_str().map(|s| s.to_string());
+            println!("replaying grid case {} by re-running the {} grids", body["key"], prop);
+            replay = None;
+        }
+    }
+    let _ = replay_case_key;
     if let Some(p) = replay {
         let body: serde_json::Value = serde_json::from_str(&std::fs::read_to_string(&p).expect("replay file")).expect("replay json");
         let code = match body["kind"].as_str() {
@@ -57,6 +70,8 @@ fn main() {
         "C11" => grids::run_c11(thorough),
         "C08" | "C10" | "C16" | "C17" => probe_checks::run(&prop, thorough),
         "C12" => own::run(thorough),
+        "C13" => treasury_grid::run(thorough),
+        "C14" => config_grid::run(thorough),
         "C04" => grids::run_c04(thorough),
         "C09" => grids::run_c09(thorough),
         _ => {
